@@ -23,6 +23,8 @@ REPO = pathlib.Path(os.environ.get("VERIF_REPO", "/repo")).resolve()
 DEPS = VERIF / "_deps"
 EVIDENCE_SCHEMA = pathlib.Path("/root/.vp/EVIDENCE.schema.json")
 KNOWN_FINDINGS = VERIF / "known_findings.json"
+# evidence/ and replays/ go here (mutation sweeps redirect them so that /verif/evidence always comes from /repo itself)
+OUT = pathlib.Path(os.environ.get("VERIF_OUT", str(VERIF)))
 
 
 class HarnessError(Exception):
@@ -163,7 +165,7 @@ class Ctx:
                 if n:
                     print(f"KNOWN-FINDING: property={self.pid} {f['what']} [{f['id']}; {n} case(s) this run]")
         rc = 0
-        rdir = VERIF / "replays" / self.pid
+        rdir = OUT / "replays" / self.pid
         shown = 0
         for key, v in sorted(reported.items(), key=lambda kv: _case_size(kv[1].case)):
             rdir.mkdir(parents=True, exist_ok=True)
@@ -249,8 +251,8 @@ def write_evidence(pid: str, ev: dict) -> None:
         jsonschema.validate(ev, schema)
     except jsonschema.ValidationError as e:  # pragma: no cover
         raise HarnessError(f"evidence does not validate: {e.message}") from e
-    out = VERIF / "evidence"
-    out.mkdir(exist_ok=True)
+    out = OUT / "evidence"
+    out.mkdir(parents=True, exist_ok=True)
     (out / f"{pid}.json").write_text(json.dumps(ev, indent=1, default=str) + "\n")
 
 
